@@ -1047,7 +1047,11 @@ pub fn step(cfg: &Cfg, sut: &mut Sut, m: &mut Model, pre: &Snapshot, op: Op, has
         for e in &post.entries {
             let km = &m.keys[e.key as usize];
             if !km.has || km.inval {
-                let same_reading = !u && post.valid_after.is_some() && e.last_accessed >= post.valid_after && e.last_modified < post.valid_after;
+                // the entry itself, or one that blocks the access-order purge scan in front
+                // of it, was read at exactly the reading of invalidate_all (la == va > lm)
+                let same_reading = !u
+                    && post.valid_after.is_some()
+                    && post.entries.iter().any(|x| x.last_accessed >= post.valid_after && x.last_modified < post.valid_after);
                 let site = if same_reading { "read-at-the-reading-of-invalidate_all" } else { "other" };
                 let d = format!(
                     "after {okind}: key {} was invalidated but its entry (value {}) is still held after maintenance",
